@@ -1,6 +1,6 @@
 (* Harness dispatcher for the C18 models (MemFS, PosixFS, BackendSrv). *)
 From Coq Require Import ZArith List Bool.
-From Verif Require Import Lib.Sx Model.FsBase Model.MemFS Model.PosixFS Model.BackendSrv.
+From Verif Require Import Lib.Sx Model.FsBase Model.MemFS Model.PosixFS Model.BackendSrv Model.FsAgreeDom.
 Import ListNotations.
 Open Scope Z_scope.
 
@@ -12,7 +12,8 @@ Definition sx_of_srv_steps (l : list (reply * node)) : sx :=
 
 (* fn 0/1: (tree (op ...))   -> ((result tree) ...)   on MemFS / PosixFS
    fn 2/3: (tree (cmd ...))  -> ((reply tree) ...)    server level over MemFS / PosixFS
-   fn 4  : (tree)            -> abstract tree (sorted) *)
+   fn 4  : (tree)            -> abstract tree (sorted)
+   fn 5  : (tree (op ...))   -> (bool ...)  per operation: inside the API agreement domain api_ok *)
 Definition run_backends (fn : Z) (a : sx) : sx :=
   let t := node_of_sx (nth_sx 0 a) in
   match fn with
@@ -21,5 +22,6 @@ Definition run_backends (fn : Z) (a : sx) : sx :=
   | 2 => sx_of_srv_steps (srv_run m_run (None, t) (map cmd_of_sx (list_of_sx (nth_sx 1 a))))
   | 3 => sx_of_srv_steps (srv_run p_run (None, t) (map cmd_of_sx (list_of_sx (nth_sx 1 a))))
   | 4 => sx_of_atree (abs t)
+  | 5 => L (map sx_of_bool (api_ok_trace t (map fsop_of_sx (list_of_sx (nth_sx 1 a)))))
   | _ => sx_err 99
   end.
